@@ -130,6 +130,26 @@ def expectedConsts : List (String × String) := [
   ("src/vm/param.go:TxGasContractCreation", toString txGasCreate)
 ]
 
+/-- package-level state written inside the files of the ledger path: only the start-up singletons and loggers, and the
+    process-wide cache of the token contract address (`loadContractCache`, written until the binding exists). No
+    transaction path assigns to, or mutates in place, a package-level `big.Int` (fee, gas price, `ten`, `big0` …). -/
+def expectedGlobalWrites : List (String × String × String) := [
+  ("src/service/miner_manager.go", "InitMinerManager", "assign MinerManagerImpl"),
+  ("src/service/miner_manager.go", "InitMinerManager", "assign MinerManagerImpl"),
+  ("src/service/refund_manager.go", "InitRefundManager", "assign RefundManagerImpl"),
+  ("src/service/refund_manager.go", "InitRefundManager", "assign RefundManagerImpl"),
+  ("src/service/refund_manager.go", "InitRefundManager", "assign RefundManagerImpl"),
+  ("src/service/refund_manager.go", "InitRefundManager", "assign RefundManagerImpl"),
+  ("src/service/reward_calculator.go", "InitRewardCalculator", "assign RewardCalculatorImpl"),
+  ("src/service/reward_calculator.go", "InitRewardCalculator", "assign RewardCalculatorImpl"),
+  ("src/service/transaction_pool.go", "initTransactionPool", "assign txpoolInstance"),
+  ("src/storage/account/accountdb_eth.go", "AccountDB.loadContractCache", "assign rpgContractAddress"),
+  ("src/vm/init.go", "InitVM", "assign logger")
+]
+
+/-- The functions of the ledger path keep no hidden package-level state between calls (go/ast inventory). -/
+theorem globals_untouched : LedgerFacts.globalWrites = expectedGlobalWrites := by decide
+
 /-- No ledger call site is unaccounted for, and no "result used" flag has changed. -/
 theorem sites_accounted :
     LedgerFacts.sites = expectedSites.map (fun e => (e.1, e.2.1, e.2.2.1, e.2.2.2.1)) := by decide
